@@ -146,25 +146,38 @@ func evalC09(c c09Case) *Failure {
 			raw.Close()
 			stacks := connsim.Stacks()
 			if ne, ok := err.(net.Error); ok && ne.Timeout() {
-				if strings.Contains(stacks, "tlsServe") && strings.Contains(stacks, "Handshake") {
-					return nil, failf("c09|handshake-blocks-accept", "%s: %s: a valid TLS client's handshake timed out while the TLS accept loop sits in another client's handshake", what, when)
+				// structural evidence: some server goroutine sits in a TLS handshake while ours is not being performed
+				blocked := strings.Contains(stacks, "go-redis/redis.(*Server)") && strings.Contains(stacks, ".Handshake")
+				// confirm once with a longer deadline before judging (a loaded machine is not a defect)
+				raw2, derr := d.Dial("tcp", tlsAddr)
+				if derr == nil {
+					conn2 := tls.Client(raw2, c09ClientConfig(p, "right"))
+					conn2.SetDeadline(time.Now().Add(15 * time.Second))
+					herr := conn2.Handshake()
+					raw2.Close()
+					if herr == nil {
+						return nil, failf("harness|slow-handshake", "%s: %s: a valid handshake needed more than 5s (passed within 15s)", what, when)
+					}
 				}
-				return nil, failf("c09|tls-not-serving", "%s: %s: a valid TLS client's handshake timed out", what, when)
+				if blocked {
+					return nil, failf("c09|handshake-blocks-accept", "%s: %s: a valid TLS client's handshake timed out (5s, confirmed with 15s) while the server sits in another client's handshake", what, when)
+				}
+				return nil, failf("c09|tls-not-serving", "%s: %s: a valid TLS client's handshake timed out (5s, confirmed with 15s)", what, when)
 			}
 			return nil, failf("c09|tls-not-serving", "%s: %s: a valid TLS client's handshake failed: %v", what, when, err)
 		}
 		if password != "" {
-			if v, err := roundTrip(conn, resp.Cmd("AUTH", password).Bytes(), 5*time.Second); err != nil || !v.Equal(resp.S("OK")) {
+			if v, err := roundTrip(conn, resp.Cmd("AUTH", password).Bytes(), 10*time.Second); err != nil || !v.Equal(resp.S("OK")) {
 				conn.Close()
 				return nil, failf("c09|valid-auth-refused", "%s: %s: AUTH with the password on a valid TLS connection answered %v, %v", what, when, v, err)
 			}
 		}
-		if v, err := roundTrip(conn, resp.Cmd("PING").Bytes(), 5*time.Second); err != nil || !v.Equal(resp.S("PONG")) {
+		if v, err := roundTrip(conn, resp.Cmd("PING").Bytes(), 10*time.Second); err != nil || !v.Equal(resp.S("PONG")) {
 			conn.Close()
 			return nil, failf("c09|tls-not-serving", "%s: %s: PING on a valid TLS connection answered %v, %v", what, when, v, err)
 		}
 		key := uniq("valid")
-		if _, err := roundTrip(conn, resp.Cmd("GET", key).Bytes(), 5*time.Second); err != nil || callsFor(key) != 1 {
+		if _, err := roundTrip(conn, resp.Cmd("GET", key).Bytes(), 10*time.Second); err != nil || callsFor(key) != 1 {
 			conn.Close()
 			return nil, failf("c09|valid-not-executed", "%s: %s: GET of a valid TLS client was not executed (%v, calls %d)", what, when, err, callsFor(key))
 		}
@@ -176,7 +189,7 @@ func evalC09(c c09Case) *Failure {
 			return failf("c09|plain-listener-down", "%s: %s: a plain client cannot connect: %v", what, when, err)
 		}
 		defer conn.Close()
-		v, err := roundTrip(conn, resp.Cmd("PING").Bytes(), 5*time.Second)
+		v, err := roundTrip(conn, resp.Cmd("PING").Bytes(), 10*time.Second)
 		if err != nil {
 			return failf("c09|plain-not-serving", "%s: %s: PING on the plain port got no reply frame: %v", what, when, err)
 		}
